@@ -353,7 +353,7 @@ func (c *ctx) wopAlphabet(avail, size int, withGrow bool) []string {
 		return strconv.Itoa(n) + "/" + strconv.Itoa(seed)
 	}
 	ops := []string{"w" + sz(0), "w" + sz(1), "w" + sz(avail-1), "w" + sz(avail), "w" + sz(avail+1), "w" + sz(2*size), "w" + sz(3*size+1),
-		"t" + sz(0), "t" + sz(size+3), "r" + sz(avail+2) + "/-", "r" + sz(2*size+1) + "/r3", "r" + sz(0) + "/-", "ff", "fl", "fl"}
+		"t" + sz(0), "t" + sz(size+3), "r" + sz(avail+2) + "/-", "r" + sz(2*size+1) + "/" + map[bool]string{true: "r3", false: "r4099"}[2*size+1 < 3000], "r" + sz(0) + "/-", "ff", "fl", "fl"}
 	if withGrow {
 		ops = append(ops, "g"+strconv.Itoa(1+c.rng.Intn(3*size+1)), "g1", "df")
 	}
@@ -368,13 +368,40 @@ func (c *ctx) randHistory(cfg wcfg, depth int, withGrow bool) string {
 		return "fl"
 	}
 	var ops []string
+	size0 := w.Size()
+	budget := 40000
+	if c.thor {
+		budget = 300000
+	}
+	if size0 > 60000 {
+		budget = 200000
+	}
 	for i := 0; i < depth; i++ {
 		size, avail := w.Size(), w.Available()
 		if size > 70000 {
 			size = 70000
 		}
+		if size > 2*size0+64 && size > 2200 { // grown buffers: keep relative sizes moderate
+			size = 2200
+			if avail > size {
+				avail = size
+			}
+		}
 		al := c.wopAlphabet(avail, size, withGrow)
 		op := al[c.rng.Intn(len(al))]
+		if op[0] == 'w' || op[0] == 't' || op[0] == 'r' {
+			n, _ := strconv.Atoi(strings.Split(op[1:], "/")[0])
+			if n > budget {
+				continue
+			}
+			budget -= n
+		}
+		if op[0] == 'g' {
+			n, _ := strconv.Atoi(op[1:])
+			if n > 100000 {
+				continue
+			}
+		}
 		ops = append(ops, op)
 		func() {
 			defer func() { recover() }()
@@ -387,7 +414,7 @@ func (c *ctx) randHistory(cfg wcfg, depth int, withGrow bool) string {
 
 func runC06(c *ctx) {
 	depth := 4
-	nrand := 10
+	nrand := 8
 	if c.thor {
 		depth = 6
 		nrand = 60
@@ -399,7 +426,10 @@ func runC06(c *ctx) {
 				big := strings.HasPrefix(ctor, "s655") || strings.HasPrefix(ctor, "b655") || ctor == "u70000" || ctor == "d0"
 				k := nrand
 				if big && !c.thor {
-					k = 2
+					k = 0
+					if (int(side)+int(op))%2 == 0 && op == 1 {
+						k = 1
+					}
 				}
 				for j := 0; j < k; j++ {
 					runWH(c, "WH", cfg, c.randHistory(cfg, 1+c.rng.Intn(depth), j%3 == 0), "-")
@@ -412,6 +442,11 @@ func runC06(c *ctx) {
 	}
 	// with a MessageState extension (C13 send side)
 	runC13Wimpl(c)
+	// two extensions that both want the compression bit: the second one objects
+	for _, side := range []byte{1 | 4, 2 | 4} {
+		runWH(c, "WHX", wcfg{"u16", side, 1, "11"}, "w100/3,fl", "-")
+		runWH(c, "WHX", wcfg{"u64", side, 2, "11"}, "w5/3,fl,w3/1,fl", "-")
+	}
 }
 
 func runC13Wimpl(c *ctx) {
